@@ -54,6 +54,14 @@ func (ex *Exec) posOf(ins ssa.Instruction) string {
 
 var Stubs = map[string]StubFn{}
 
+// ExecStd lists standard-library functions simple enough to be executed from their own SSA.
+var ExecStd = map[string]bool{
+	"(*fmt.wrapError).Unwrap":       true,
+	"(encoding/json.Number).String": true,
+	"(encoding/json.Delim).String":  true,
+	"(time.Month).String":           false,
+}
+
 func (ex *Exec) callValue(fr *frame, st *State, fv Value, method *types.Func, args []Value, site ssa.Instruction) []*callResult {
 	if method != nil {
 		iv, ok := fv.(IfaceV)
@@ -96,7 +104,7 @@ func (ex *Exec) callFn(fr *frame, st *State, fn *ssa.Function, bind []Value, arg
 			return stub(ex, &CallCtx{St: st, Fr: fr, Args: args, Site: site, Fn: fn, Name: o.String()})
 		}
 	}
-	if fn.Blocks != nil && (ex.inModule(fn) || fn.Synthetic != "" && wrapperOK(fn)) {
+	if fn.Blocks != nil && (ex.inModule(fn) || fn.Synthetic != "" && wrapperOK(fn) || ExecStd[name]) {
 		depth := 0
 		if fr != nil {
 			depth = fr.depth + 1
